@@ -271,7 +271,7 @@ func (cc c05Chain) build() *rux.Router {
 }
 
 func runC05(e *Env) {
-	e.Rule = "chains global+group+route middleware+main built through Use (one or several calls), Group middleware, variadic route middleware and Route.Use; exhaustive: every chain length 1..L (L=7 quick, 9 thorough) x every position of the aborting handler x {Abort, AbortThen, AbortWithStatus(code), AbortWithStatus(code,msg), code incl. 200, optionally after the first handler recorded another status without committing} x abort before/after/without its own Next() x extra Next() after the abort x every subset of the other handlers calling/not calling Next() x body byte written before the abort or not; sampled: long chains with totals around 31..33, 61..66 and 126..140 (beyond 63 through global middleware) and random behaviours (incl. double Next); after every aborted request a second request on the same router in which nobody aborts. Observed: enter/leave/abort events and IsAborted() sampled at entry, before/after the abort call and at leave of every handler, status/body at the recording writer. Oracle: specification-level interpreter of Next/Abort. Non-trivial: every case (each has an abort); distinct by chain description."
+	e.Rule = "chains global+group+route middleware+main built through Use (one or several calls), Group middleware, variadic route middleware and Route.Use; exhaustive: every chain length 1..L (L=7 quick, 9 thorough) x every position of the aborting handler x {Abort, AbortThen, AbortWithStatus(code), AbortWithStatus(code,msg), code incl. 200, optionally after the first handler recorded another status without committing} x abort before/after/without its own Next() x extra Next() after the abort x every subset of the other handlers calling/not calling Next() x body byte written before the abort or not; sampled: long chains with totals around 31..33, 61..66 and 126..140 (beyond 63 through global middleware) and random behaviours (incl. double Next); after every aborted request a second request on the same router in which nobody aborts. Observed: enter/leave/abort events and IsAborted() sampled at entry, before/after the abort call and at leave of every handler, status/body at the recording writer. Oracle: specification-level interpreter of Next/Abort. Non-trivial: every case (each has an abort); distinct by chain description. Sampled chains may run behind an uninstrumented recover middleware and/or a buffering middleware that replaced c.Resp, or on a writer whose first body write fails."
 	e.Assumptions = []string{
 		"a route's own chain (group + route middleware + main handler) stays within the registration limit of 63; global middleware, which that limit does not count, makes executed chains of up to 140 entries",
 	}
